@@ -270,8 +270,8 @@ fn gen_stage(rng: &mut Rng, cur: &Cursor, sw: &Swarm, cfg: &GenCfg) -> Option<St
                 n: gen_lag(rng, cur.rem, false),
                 fill: if rng.chance(1, 2) { None } else { Some(tv(rng)) },
             },
-            8 => Stage::FFill { fill: if rng.chance(1, 2) { None } else { Some(tv(rng)) } },
-            9 if cur.de => Stage::BFill { fill: if rng.chance(1, 2) { None } else { Some(tv(rng)) } },
+            8 => { let m = fill_mask(rng); Stage::FFill { fill: if rng.chance(1, 2) { None } else { Some(tv(rng)) }, mask: m } }
+            9 if cur.de => { let m = fill_mask(rng); Stage::BFill { fill: if rng.chance(1, 2) { None } else { Some(tv(rng)) }, mask: m } }
             10 => Stage::Fill { v: tv(rng) },
             2 => Stage::Shift { n: gen_lag(rng, cur.rem, false), v: Val::I(1000 + rng.below(10) as i64) },
             _ => Stage::Take { k: gen_k(rng, cur.rem) },
@@ -299,8 +299,8 @@ fn gen_stage(rng: &mut Rng, cur: &Cursor, sw: &Swarm, cfg: &GenCfg) -> Option<St
                     Some(gen_val(rng, ty, 20))
                 },
             },
-            8 => Stage::FFill { fill: if rng.chance(1, 2) { None } else { Some(gen_nonnull(rng, ty)) } },
-            9 => Stage::BFill { fill: if rng.chance(1, 2) { None } else { Some(gen_nonnull(rng, ty)) } },
+            8 => { let m = fill_mask(rng); Stage::FFill { fill: if rng.chance(1, 2) { None } else { Some(gen_nonnull(rng, ty)) }, mask: m } }
+            9 => { let m = fill_mask(rng); Stage::BFill { fill: if rng.chance(1, 2) { None } else { Some(gen_nonnull(rng, ty)) }, mask: m } }
             10 => Stage::Fill { v: gen_nonnull(rng, ty) },
             11 => {
                 let a = gen_nonnull(rng, ty);
@@ -588,4 +588,13 @@ pub fn gen_pipe(rng: &mut Rng, cfg: &GenCfg) -> Pipe {
         }
     };
     Pipe { ty, data, errs, fallible, backend, root, ops, terminal }
+}
+
+// which mask a fill stage uses: half of them the default null mask, the rest one of the two custom masks
+fn fill_mask(rng: &mut Rng) -> u8 {
+    match rng.below(4) {
+        0 | 1 => 0,
+        2 => 1,
+        _ => 2,
+    }
 }
